@@ -90,21 +90,27 @@ def recover(parser, errors, f):
 
 def unfold_explains(text, first_line, block, outcome, got_dump):
     """Is the observed failure exactly what replacing backslash-newline textually in the function's block does?
-    (re-parse the module with only this block unfolded and compare)"""
-    lines = text.split('\n')
-    nblock = block.count('\n') + (0 if block.endswith('\n') else 1)
+    Reference, independent of dedent_block: the unfolded block is parsed in place (an indented block is wrapped in
+    `if 1:` instead of being dedented)."""
     unf = block.replace('\\\n', '')
     if unf == block:
         return False
-    new = lines[:first_line - 1] + unf.rstrip('\n').split('\n') + lines[first_line - 1 + nblock:]
+    indented = block[:1] in (' ', '\t')
+    is_error = outcome == 'unsupported' or (
+        outcome.startswith('exc:') and outcome[4:] in ('SyntaxError', 'IndentationError', 'TabError', 'ValueError'))
     try:
-        t2 = ast.parse('\n'.join(new))
-    except SyntaxError as e:
-        return outcome.startswith('exc:') and outcome[4:] in ('SyntaxError', 'IndentationError', 'TabError', 'ValueError')
-    cands = def_index(t2).get(first_line, [])
-    if len(cands) != 1:
-        return outcome.startswith('exc:')
-    return outcome == 'diff' and ast.dump(cands[0]) == got_dump
+        t2 = ast.parse(('if 1:\n' + unf) if indented else unf)
+    except SyntaxError:
+        # the unfolded text is no longer Python: any loud failure of the recovery is the same defect (which error
+        # is hit first — the parser's, or the tab/space check of dedent_block on what used to be the inside of a
+        # string — depends on the garbage)
+        return is_error
+    body = t2.body
+    if indented:
+        body = t2.body[0].body if len(t2.body) == 1 and isinstance(t2.body[0], ast.If) else None
+    if body is None or len(body) != 1 or not isinstance(body[0], (ast.FunctionDef, ast.AsyncFunctionDef)):
+        return is_error       # more than one statement after the corruption: parse() raises ValueError
+    return outcome == 'diff' and ast.dump(body[0]) == got_dump
 
 
 def py_classes(atoks):
@@ -666,11 +672,15 @@ def check(run, only_case=None):
     # -------- corpus (past failures / witnesses), replayed first
     for fn, case in load_json_dir(os.path.join(common.VERIF, 'corpus', 'C15')):
         n0 = len(run.failing)
-        run_case(chk, case, 'corpus:' + fn)
+        run_case(chk, case, 'corpus:' + fn, focus=bool(case.get('focus')))
         chk.flush()
+        bad = run.failing[n0:]
         if case.get('expect') == 'pass':
-            bad = run.failing[n0:]
             run.oblige('corpus:' + fn, 'corpus', not bad, bad[0]['what'] if bad else '')
+        elif case.get('expect') == 'known':
+            # a past failure attributed to a listed finding: it may fail, but only inside a listed class
+            stray = [b for b in bad if b['cls'] is None]
+            run.oblige('corpus:' + fn, 'corpus', not stray, stray[0]['what'] if stray else '')
     if only_case is not None:
         n0 = len(run.failing)
         run_case(chk, only_case, 'replay', focus=True)
@@ -678,7 +688,7 @@ def check(run, only_case=None):
         return run.failing[n0:]
 
     # -------- generated definitions
-    nmods = 24 if quick else 220
+    nmods = 36 if quick else 520
     blocks = []
     for m in range(nmods):
         rng = random.Random(run.rng.getrandbits(64))
@@ -693,7 +703,7 @@ def check(run, only_case=None):
     # -------- synthetic inputs for dedent_block (correspondence on its other paths: early return, mixed
     # indentation error, TokenError, position-mode prefix)
     rng = random.Random(run.rng.getrandbits(64))
-    nsyn = 150 if quick else 1500
+    nsyn = 200 if quick else 2500
     for block in rng.sample(blocks, min(nsyn, len(blocks))):
         for name, code in variants(rng, block):
             chk.hist['synthetic:' + name] += 1
@@ -703,7 +713,7 @@ def check(run, only_case=None):
             chk.flush()
     chk.flush()
     # -------- generated lambdas
-    nl = 30 if quick else 260
+    nl = 45 if quick else 520
     for m in range(nl):
         rng = random.Random(run.rng.getrandbits(64))
         g = G.LamGen(rng, posonly=(m % 3 != 0))
